@@ -21,7 +21,8 @@ LEVEL_TEXT = ("Each conditional / marginal returned for the workload is compared
               "ValueErrors are exercised.")
 LEVEL_NOTE = "Trusted: Fraction arithmetic (two independent formulas must agree). Queries with 1e3*eps*cond > 1e-4 are not judged."
 RULE = ("cases: (mean, covariance, Y, X, x, index form).  distinct = distinct canonical case; non-trivial = Y or X not in "
-        "increasing order, or |X| >= 2")
+        "increasing order, or |X| >= 2"
+        ' Also: the same Gaussian in units 1e-12..1e8, weak dependence, far-out conditioning values, badly scaled variables (gross-error regime), 12-24 variables with int8/uint8/int16/int32 index arrays, covariances of integer-weight SEMs with exact structural zeros; each distribution object answers all its queries (same sets in several orders).')
 ASSUMPTIONS = ["conditioning block non-singular (the property's scope); tolerance scaled by its 2-norm condition number"]
 EXHAUSTIVE = {"quick": False, "thorough": False}
 SOFT_LIMIT = {"quick": 240, "thorough": 1500}
